@@ -1,5 +1,6 @@
 import Driver.Common
 import Logrange.Model.RangedIter
+import Logrange.Model.PartScan
 /-! Model driver for C02 (time-range queries). Requests (one per line):
 
 block tree / abstract points (unit)
@@ -229,7 +230,13 @@ def step (d : DS) (toks : List String) : DS × String :=
             (if d.rcidx.chunks.any (fun c => match c.root with | some r => (d.rcidx.store[r]!).level > 0 | none => false) then ["4", "24"] else ["4"])
           else [])
        let clsS := if cls.isEmpty then "-" else ",".intercalate cls
-       if got == spec then (d, s!"got={runs got} spec={runs spec} cls={clsS} fix2=- fix3=- fix23=- fix41=- fixset=-")
+       -- the abstract scan the partition theorem is proved about (PartScan: fold over chunks of the window positions,
+       -- then the range re-check) must deliver what the executable pipeline model delivers
+       let st1 := RangedIter.rebuildStatuses { cks := lay.1, cidx := d.rcidx, tss := lay.2.1, rmin := mn, rmax := mx }
+       let absGot : Array Nat := ((PartScan.scanAll (st1.stats.map (·.2))).filter (fun (kp : Nat × Nat) =>
+           RangedIter.fitInRange mn mx (((lay.2.1[kp.1]?).getD #[])[kp.2]?.getD 0))).toArray.map (fun (kp : Nat × Nat) => lay.2.2[kp.1]! + kp.2)
+       let absS := b01 (absGot == got)
+       if got == spec then (d, s!"got={runs got} spec={runs spec} cls={clsS} fix2=- fix3=- fix23=- fix41=- fixset=- abs={absS}")
        else
          let lo3 : Int := lo.getD Points.minI64
          let f2 := doScan lay d.rcidx2 mn mx page total == spec
@@ -249,7 +256,7 @@ def step (d : DS) (toks : List String) : DS × String :=
          let fixset := match cands.find? (fun (a, b, c, _) => tryset a b c) with
            | some (_, _, _, nm) => nm
            | none => "-"
-         (d, s!"got={runs got} spec={runs spec} cls={clsS} fix2={b01 f2} fix3={b01 f3} fix23={b01 f23} fix41={b01 f41} fixset={fixset}")
+         (d, s!"got={runs got} spec={runs spec} cls={clsS} fix2={b01 f2} fix3={b01 f3} fix23={b01 f23} fix41={b01 f41} fixset={fixset} abs={absS}")
      | _, _, _ => (d, "bad-op"))
   | ["rw.rebuildcounts", spec] =>
     -- rebuilds that saw only the first `count` records of each chunk (records written but not yet confirmed are invisible
